@@ -139,6 +139,15 @@ func sanitizedIdent(who Ident) Ident {
 
 func keyOf(i Ident) string { b, _ := json.Marshal(i); return string(b) }
 
+// show is the readable form used in violation details.
+func show(i Ident) string {
+	sc := "nil"
+	if !i.ScopesNil {
+		sc = fmt.Sprintf("%q", i.Scopes)
+	}
+	return fmt.Sprintf("{topic %q scopes %s read %v write %v expires %s user-agent %q forwarded-for %q}", i.Topic, sc, i.CanRead, i.CanWrite, i.ExpiresAt, i.UserAgent, i.Addr)
+}
+
 // diffIdents compares two listings as multisets; "" when equal, otherwise which clause failed.
 func diffIdents(expected, listed []Ident) (clause, detail string) {
 	exp := map[string]int{}
@@ -154,14 +163,14 @@ func diffIdents(expected, listed []Ident) (clause, detail string) {
 		// listed but not expected: is it a known connection shown with other values, or a stale one?
 		for _, e := range expected {
 			if string(e.UserAgent) == string(l.UserAgent) {
-				return "wrong-identity-in-report", fmt.Sprintf("listed %s, admitted as %s", k, keyOf(e))
+				return "wrong-identity-in-report", fmt.Sprintf("listed %s, admitted as %s", show(l), show(e))
 			}
 		}
-		return "listed-but-gone", "listed: " + k
+		return "listed-but-gone", "listed: " + show(l)
 	}
-	for k, n := range exp {
-		if n > 0 {
-			return "connected-but-unlisted", "not listed: " + k
+	for _, e := range expected {
+		if exp[keyOf(e)] > 0 {
+			return "connected-but-unlisted", "not listed: " + show(e)
 		}
 	}
 	return "", ""
